@@ -63,7 +63,7 @@ NOVIRT = {}
 WRITER_USE = st.one_of(
     st.just({}), st.just({}),
     st.tuples(st.sampled_from(["xml", "pb"]), st.integers(1, 12)).map(lambda t: {"decoy": list(t)}),
-    st.just({"reuse": True}), st.just({"reuse": "edited"}), st.just({"read_la": True}), st.just({"open_rings": True}), st.just({"pre_use": True}), st.just({"network_only": True}))
+    st.just({"reuse": True}), st.just({"reuse": "edited"}), st.just({"read_la": True}), st.just({"open_rings": True}), st.just({"pre_use": True}), st.just({"network_only": True}), st.just({"reuse": "full"}), st.just({"read_twice": True}))
 
 
 def force_virtual(r):
